@@ -43,7 +43,7 @@ def gen(rng, big=False):
         r = rng.random()
         if r < 0.32 or not opened:
             c = rng.choice(cids)
-            ops.append(f"o:{h}:{p}:{c}:{rng.choice(serials)}:{rng.choice('ppr')}")
+            ops.append(f"o:{h}:{p}:{c}:{rng.choice(serials)}:{rng.choice('ppr')}" + (":t" if rng.random() < 0.3 else ""))
             opened.setdefault((h, p), []).append(c)
         elif r < 0.72:
             c = rng.choice(opened.get((h, p)) or cids) if rng.random() < 0.85 else rng.choice(cids)
@@ -84,20 +84,42 @@ class Sim:
         self.ucmm = logix.setup()
         self.CM = device.lookup(class_id=0x06, instance_id=1)
 
+    def picking(self, cid):
+        """`device.random.randint` answers `cid` while a Forward Open is processed"""
+        import contextlib
+        device = self.device
+
+        class Pick:
+            @staticmethod
+            def randint(lo, hi):
+                return cid
+
+        @contextlib.contextmanager
+        def cm():
+            saved = device.random
+            device.random = Pick
+            try:
+                yield
+            finally:
+                device.random = saved
+        return cm()
+
     def do(self, op):
         f = op.split(":")
         addr = (host(int(f[1])), int(f[2]))
         CM, client, cpppo = self.CM, self.client, self.cpppo
         if f[0] == "o":
             cid, serial, t = int(f[3]), int(f[4]), f[5]
+            p2p = len(f) > 6            # Point-to-Point: the target picks the O->T ID (scripted: it picks `cid`)
             req = client.client.forward_open(
                 None, path='@6/1', connection_path=CPATH[t], priority_time_tick=5, timeout_ticks=157,
-                O_T=dict(RPI=100000, size=500, type=0, connection_ID=cid),      # "Null" type: the originator's ID is kept
+                O_T=dict(RPI=100000, size=500, type=2 if p2p else 0, connection_ID=0xDEAD if p2p else cid),  # "Null" type: the originator's ID is kept
                 T_O=dict(RPI=100000, size=500, type=2, connection_ID=1),
                 O_serial=0x1234, O_vendor=0x99, connection_serial=serial, transport_class_triggers=0xa3,
                 connection_timeout_multiplier=0, send=False)
             req.service = CM.FWD_OPEN_REQ
-            CM.request(req, addr=addr)
+            with self.picking(cid):
+                CM.request(req, addr=addr)
             if req.status == 0:
                 got = req.forward_open.O_T.connection_ID
                 return "opened" if got == cid else f"opened-with-other-id:{got}"
@@ -182,11 +204,13 @@ class WireSim(Sim):
         if f[0] == "o":
             cid, serial, t = int(f[3]), int(f[4]), f[5]
             cp = bytes([0x20, 0xA6, 0x24, 0x01]) if t == "p" else bytes([0x20, 0x02, 0x24, 0x01])
-            ncp_ot = (0 << 13) | (1 << 9) | 500                      # type 0 (Null), variable, size 500
+            p2p = len(f) > 6
+            ncp_ot = ((2 if p2p else 0) << 13) | (1 << 9) | 500      # type 0 (Null) / 2 (Point-to-Point), variable, size 500
             ncp_to = (2 << 13) | (1 << 9) | 500                      # type 2 (P2P)
-            cm = (b"\x54\x02\x20\x06\x24\x01" + bytes([5, 157]) + struct.pack("<IIHHI", cid, 1, serial, 0x99, 0x1234)
+            cm = (b"\x54\x02\x20\x06\x24\x01" + bytes([5, 157]) + struct.pack("<IIHHI", 0xDEAD if p2p else cid, 1, serial, 0x99, 0x1234)
                   + bytes([0, 0, 0, 0]) + struct.pack("<IHIH", 100000, ncp_ot, 100000, ncp_to) + bytes([0xa3, len(cp) // 2]) + cp)
-            rsp = self.process(addr, self.frame(0x6f, self.cpf([(0, b""), (0xb2, cm)])))
+            with self.picking(cid):
+                rsp = self.process(addr, self.frame(0x6f, self.cpf([(0, b""), (0xb2, cm)])))
             if rsp is None:
                 return "failed"
             rep = bytes(rsp.enip.CIP.send_data.CPF.item[1].unconnected_send.request.input)
